@@ -16,8 +16,14 @@ type pair[K, V any] struct {
 	Val V
 }
 
-func NewIntegerIter(n int) Iterator[pair[int, any]] {
-	return &integerIter{n: n, i: -1}
+// integer: every type a "for i := range n" statement accepts for n; i has the type of n
+type integer interface {
+	~int | ~int8 | ~int16 | ~int32 | ~int64 |
+		~uint | ~uint8 | ~uint16 | ~uint32 | ~uint64 | ~uintptr
+}
+
+func NewIntegerIter[N integer](n N) Iterator[pair[N, any]] {
+	return &integerIter[N]{n: n}
 }
 
 func NewStringIter(str string) Iterator[pair[int, rune]] {
@@ -38,21 +44,23 @@ func NewChanIter[V any](ch <-chan V) Iterator[pair[V, any]] {
 	return &chanIter[V]{ch: ch}
 }
 
-type integerIter struct {
-	n int
-	i int
+type integerIter[N integer] struct {
+	n    N
+	next N // the next value, never beyond n (so it can not overflow N)
+	cur  N
 }
 
-func (i *integerIter) MoveNext() bool {
-	if i.i+1 >= i.n {
+func (i *integerIter[N]) MoveNext() bool {
+	if i.next >= i.n {
 		return false
 	}
-	i.i++
+	i.cur = i.next
+	i.next++
 	return true
 }
 
-func (i *integerIter) Current() pair[int, any] {
-	return pair[int, any]{Key: i.i}
+func (i *integerIter[N]) Current() pair[N, any] {
+	return pair[N, any]{Key: i.cur}
 }
 
 type stringIter struct {
